@@ -811,6 +811,24 @@ pub fn probe2(cli: &Cli) {
         for k in [0usize, 1, 0, 1] { let _ = w.sync(k).await; }
         let mut made: Vec<(usize, VaultId, sos_core::SecretId)> = vec![];
         let mode = std::env::var("MODE").unwrap_or_default();
+        if mode == "delete-vs-edit" {
+            // a shared folder: d1 deletes it while d0 adds a secret to it, both offline
+            let f = { let mut a = w.devices[0].lock().await; *a.create_folder(NewFolderOptions::new("shared".to_string())).await.unwrap().folder.id() };
+            { let mut a = w.devices[0].lock().await; let (m, s) = mk_secret(&mut rng, "old"); a.create_secret(m, s, o(f)).await.unwrap(); }
+            for k in [0usize, 1, 0, 1] { let r = w.sync(k).await; println!("sync d{k} {:?}", r); }
+            { let mut a = w.devices[1].lock().await; let r = a.delete_folder(&f).await; println!("d1 delete_folder -> {:?}", r.is_ok()); }
+            { let mut a = w.devices[0].lock().await; let (m, s) = mk_secret(&mut rng, "new"); let r = a.create_secret(m, s, o(f)).await; println!("d0 create in shared -> {:?}", r.is_ok()); }
+            let order: Vec<usize> = if std::env::var("ORDER").unwrap_or_default() == "10" { vec![1, 0, 1, 0, 1, 0] } else { vec![0, 1, 0, 1, 0, 1] };
+            for k in order { let r = w.sync(k).await; println!("sync d{k} {:?}", r); }
+            for d in 0..2usize {
+                let a = w.devices[d].lock().await;
+                let folders: Vec<String> = a.list_folders().await.unwrap().iter().map(|s| s.name().to_string()).collect();
+                let st = { use sos_sync::SyncStorage; a.sync_status().await.map(|s| format!("{:?}", s.root)).unwrap_or_default() };
+                println!("device {d} folders {:?} root {}", folders, st);
+            }
+            println!("server root {:?}", w.server_status().await.map(|s| format!("{:?}", s.root)));
+            return;
+        }
         if mode == "files-empty" {
             // the file log is empty on every replica; each device attaches its first external file offline
             let default = { let a = w.devices[0].lock().await; *a.default_folder().await.unwrap().id() };
